@@ -22,12 +22,14 @@ async def _stop_stoppable(task: Stoppable):
 
 
 async def _stop_task(task: asyncio.Task):
-    if task is None:
+    if task is None or task is asyncio.current_task():
+        # a task cannot cancel-and-await itself: cancelling the running task would only
+        # abort whatever it awaits next (e.g. the close callback it is in the middle of).
+        # The caller's own loop ends once it observes the stopped state.
         return
     try:
         task.cancel()
-        if asyncio.current_task() != task:
-            await task
+        await task
     except asyncio.CancelledError:
         pass
     except RuntimeError as exc:
